@@ -346,18 +346,43 @@ func init() {
 		*p = (*p).(int64) + a[1].(int64)
 		return *p
 	}
-	// mutexes: the engine switches goroutines at channel operations only, so a critical section is
-	// never interleaved; the nesting depth is kept to tell synchronised writes from plain ones
-	for _, n := range []string{"(*sync.Mutex).Lock", "(*sync.RWMutex).Lock", "(*sync.RWMutex).RLock"} {
-		intrinsics[n] = func(in *Interp, _ *frame, a []Value) Value { in.lockHeld++; return nil }
+	// mutexes: real blocking semantics on the engine's scheduler (a Lock of a held mutex parks the
+	// goroutine until an Unlock; if nobody can unlock, the scheduler reports the deadlock), plus the
+	// nesting depth of critical sections, which tells synchronised writes from plain ones
+	intrinsics["(*sync.Mutex).Lock"] = func(in *Interp, _ *frame, a []Value) Value {
+		in.sched.mutexLock(a[0].(*Value), true)
+		in.lockHeld++
+		return nil
 	}
-	for _, n := range []string{"(*sync.Mutex).Unlock", "(*sync.RWMutex).Unlock", "(*sync.RWMutex).RUnlock"} {
-		intrinsics[n] = func(in *Interp, _ *frame, a []Value) Value {
-			if in.lockHeld > 0 {
-				in.lockHeld--
-			}
-			return nil
+	intrinsics["(*sync.RWMutex).Lock"] = intrinsics["(*sync.Mutex).Lock"]
+	intrinsics["(*sync.RWMutex).RLock"] = func(in *Interp, _ *frame, a []Value) Value {
+		in.sched.mutexLock(a[0].(*Value), false)
+		in.lockHeld++
+		return nil
+	}
+	intrinsics["(*sync.Mutex).Unlock"] = func(in *Interp, _ *frame, a []Value) Value {
+		in.sched.mutexUnlock(a[0].(*Value), true)
+		if in.lockHeld > 0 {
+			in.lockHeld--
 		}
+		return nil
+	}
+	intrinsics["(*sync.RWMutex).Unlock"] = intrinsics["(*sync.Mutex).Unlock"]
+	intrinsics["(*sync.RWMutex).RUnlock"] = func(in *Interp, _ *frame, a []Value) Value {
+		in.sched.mutexUnlock(a[0].(*Value), false)
+		if in.lockHeld > 0 {
+			in.lockHeld--
+		}
+		return nil
+	}
+	intrinsics["(*sync.Mutex).TryLock"] = func(in *Interp, _ *frame, a []Value) Value {
+		m := in.sched.mutexOf(a[0].(*Value))
+		if m.writer || m.readers > 0 {
+			return false
+		}
+		m.writer = true
+		in.lockHeld++
+		return true
 	}
 	// sync.Pool: modelled as a LIFO free list per pool (Get reuses the most recently Put object,
 	// else calls New). Its internal state is synchronised by the runtime, so it is exempt from
